@@ -19,7 +19,7 @@ TEXT = {
  "C03": dict(
    engine="hv", design_ref="DESIGN.md 3.C03",
    technique="fault injection at the handler (scripted outcomes) + return-value oracle + /proc blocked-reader certificate for 'bounded time'",
-   level_text="For every reply-bearing and acknowledged operation the handler outcome is scripted (success values incl. 0/max patterns, with/without file, every error variant, wrong-length/empty config, non-zero status) and the real frontend call's return is compared with it. 'Never an indefinite wait' is decided by a certificate read from /proc (caller parked in recvmsg, server parked in recvmsg or gone, SIOCINQ==0 both ways), never by the clock.",
+   level_text="For every reply-bearing and acknowledged operation the handler outcome is scripted (success values incl. 0/max patterns, with/without file, every error variant, wrong-length/empty config, non-zero status) and the real frontend call's return is compared with it. 'Never an indefinite wait' is decided by a certificate read from /proc (caller parked in recvmsg, server parked in recvmsg or gone, SIOCINQ==0 both ways), never by the clock. A second unit (hd) drives all 21 device trait methods through the Mutex / RwLock / Arc adapters of vhost-user-backend around a recording device with succeeding and failing results: one invocation with equal arguments, and the adapter returns exactly what the device produced.",
    level_note="Trusted: /proc/<tid>/syscall + SIOCINQ as evidence of a permanently blocked reader. Which error variant is returned is not judged; un-acknowledged set-operations are observed only.",
  ),
  "C08": dict(
@@ -91,7 +91,7 @@ TEXT = {
  "C16": dict(
    engine="hd", design_ref="DESIGN.md 3.C16",
    technique="fault/crash-point enumeration with hold points in the daemon thread and the shutdown path; wait() watched for a /proc deadlock certificate; peer-side EOF observation; thread census",
-   level_text="The daemon thread is parked at each position (idle in header read, before a request, header received/body pending, inside the handler, after the reply, after the peer left, after exit) and 1-3 shutdown requests are interleaved with it in every order of their two steps; wait() must return Ok, the peer must see end-of-stream and a new connection must be served. Without shutdown, a peer close at every byte offset of several requests must make wait() report an error; serve() must treat clean/partial-header disconnects as success and raise every exit event; dropping the daemon must leave no thread. Disconnect cases alternate full close and half close (the peer keeps reading and must see end-of-stream once the daemon thread is gone); a well-formed request whose device handler fails must end the connection as well; a daemon thread that keeps burning CPU while wait() joins it is reported through the CPU-tick certificate.",
+   level_text="The daemon thread is parked at each position (idle in header read, before a request, header received/body pending, inside the handler, after the reply, after the peer left, after exit) and 1-3 shutdown requests are interleaved with it in every order of their two steps; wait() must return Ok, the peer must see end-of-stream and a new connection must be served. Without shutdown, a peer close at every byte offset of several requests must make wait() report an error; serve() must treat clean/partial-header disconnects as success and raise every exit event; dropping the daemon must leave no thread. Disconnect cases alternate full close and half close (the peer keeps reading and must see end-of-stream once the daemon thread is gone); a well-formed request whose device handler fails must end the connection as well; a daemon thread that keeps burning CPU while wait() joins it is reported through the CPU-tick certificate. Further cases: daemon started as the connecting side (start_client); wait() judged while another thread's shutdown request is still stalled between setting the flag and shutting the connection down; the daemon thread blocked in sendmsg on a reply the peer does not read.",
    level_note="wait() after a complete request whose reply fails with EPIPE is not judged (SocketBroken -> Ok by design).",
  ),
  "C17": dict(
